@@ -591,6 +591,11 @@ func (fr *frame) visit(instr ssa.Instruction) continuation {
 	case *ssa.Panic:
 		panic(targetPanic{v: fr.get(instr.X), where: fr.where(instr.Pos())})
 	case *ssa.Store:
+		if w.sched != nil && w.sched.race != nil {
+			if vp, ok := fr.get(instr.Addr).(*Value); ok {
+				w.raceAccess(fr, vp, true, instr.Pos())
+			}
+		}
 		fr.storeTo(derefType(instr.Addr.Type()), fr.get(instr.Addr), fr.get(instr.Val), instr.Pos())
 	case *ssa.If:
 		succ := 1
